@@ -19,7 +19,7 @@ RULE = (
     "model unchanged, macroexpand = steps until the head names no macro, a compiler-implemented macro leaves the form as it is; the result "
     "is compared node by node (type, value); when no expansion is due the result must also carry the input's attributes; a deep snapshot "
     "of the input (types, values, every instance attribute incl. positions, of every node) taken before the call must equal the one taken "
-    "after. Every generated macro body counts its calls, so an expansion that does not end is a recorded failure (endless-expansion), not a "
+    "after. A call without macros= is preceded by a call on the same module that passes a macro named like the tested form's head (which must not apply afterwards). Every generated macro body counts its calls, so an expansion that does not end is a recorded failure (endless-expansion), not a "
     "hang. Enumerated besides: each of the 40 compiler-implemented forms in its smallest instance, directly and at the end of a 1- and a "
     "2-step chain. Non-trivial = the chain has >= 2 steps (the two APIs must differ), or ends in a compiler-implemented macro, or is an identity "
     "case whose form mentions a macro name; distinct by (environment, form, api, position mode)"
@@ -188,6 +188,7 @@ def define_env(case):
         if have != want[ns]:
             raise Harness("macro table of %s is %r, wanted %r" % (ns, have, want[ns]))
     macros = None
+    mod.c36_ovr = ovr
     if case.get("macros_arg") == "dict":
         macros = dict(ovr._hy_macros)
     elif case.get("macros_arg") == "empty":
@@ -223,6 +224,16 @@ def run(case, exp, env=None):
                     macros=["%s: %s" % (d["ns"], R.render_defmacro(d)) for d in case["macros"]],
                     expected=R.render(exp["expect"]), expected_steps=exp["steps"])
         info = (exp["infos"] or ["none"])
+        if "macros" not in kwargs or not kwargs["macros"]:
+            # history: an earlier call on the same module that did pass macros= - a macro named like the head of the form
+            # under test; the call under test passes none, so that macro must not apply to it
+            M = hy.models
+            head = model[0] if isinstance(model, M.Expression) and model and isinstance(model[0], M.Symbol) else None
+            prior = {hy.mangle(str(head)) if head is not None and "." not in str(head) else "c36_prior": (lambda *a, **k: M.Expression([M.Symbol("c36-stale")]))}
+            try:
+                hy.macroexpand(make_input(case), module=kwargs["module"], macros=prior)
+            except Exception:  # noqa: the earlier call is not the one being judged
+                pass
         mod.c36_ticks[0] = 0
         try:
             got = fn(model, **kwargs)
